@@ -109,6 +109,7 @@ def _fingerprint(b):
             if cp:
                 cal.add("::".join(cp.split("::")[-2:]))
     return {"args": [b["locals"][q]["ty"]["s"] for q in range(1, b["arg_count"] + 1)], "ret": b["locals"][0]["ty"]["s"],
+            "names": [b["locals"][q].get("name") for q in range(1, b["arg_count"] + 1)],
             "callees": sorted(cal), "unsafe": bool(b.get("unsafe"))}
 
 
@@ -177,12 +178,87 @@ def detect_renames(j, known):
     return out
 
 
+def _map_locals(x, m):
+    """rewrite (in place) every local index of JSON x through the dict m"""
+    if isinstance(x, list):
+        for y in x:
+            _map_locals(y, m)
+    elif isinstance(x, dict):
+        for k, v in x.items():
+            if k == "l" and isinstance(v, int) and ("proj" in x or set(x.keys()) <= {"l", "proj", "t"}):
+                x[k] = m.get(v, v)
+            elif k == "local" and isinstance(v, int) and x.get("k") == "index":
+                x[k] = m.get(v, v)
+            else:
+                _map_locals(v, m)
+
+
+def restore_param_order(j):
+    """a known function whose parameters are a permutation of the ones the rule tables were written against (identified by
+    type, and by name where two parameters share a type) is analysed with the known order: its parameter locals and the
+    arguments of every direct call are permuted back. Returns [(path, [current position of known parameter i ...])]."""
+    fps = fingerprints()
+    out = []
+    if not fps:
+        return out
+    cfg = j["header"]["cfg"]
+    for b in j["bodies"]:
+        fm = fps.get(b["path"])
+        if not fm or "names" not in fm or b.get("kind") not in ("Fn", "AssocFn") or cfg not in fm.get("cfgs", [cfg]):
+            continue
+        fu = _fingerprint(b)
+        if fu["args"] == fm["args"] or len(fu["args"]) != len(fm["args"]) or sorted(fu["args"]) != sorted(fm["args"]):
+            continue
+        perm, used = [], set()
+        for i, (ty, nm) in enumerate(zip(fm["args"], fm["names"])):
+            cands = [q for q, t2 in enumerate(fu["args"]) if t2 == ty and q not in used]
+            if len(cands) > 1:
+                byname = [q for q in cands if nm and fu["names"][q] == nm]
+                cands = byname if len(byname) == 1 else ([i] if i in cands else [])
+            if len(cands) != 1:
+                perm = None
+                break
+            perm.append(cands[0])
+            used.add(cands[0])
+        if not perm or perm == list(range(len(perm))):
+            continue
+        # locals: known parameter i (local i+1) is today's local perm[i]+1
+        m = {perm[i] + 1: i + 1 for i in range(len(perm))}
+        _map_locals(b["blocks"], m)
+        olds = [b["locals"][q + 1] for q in range(len(perm))]
+        for i in range(len(perm)):
+            b["locals"][i + 1] = olds[perm[i]]
+        for c in j["bodies"]:
+            for bb in c["blocks"]:
+                t = bb["term"]
+                if t["k"] == "call" and _callee_path(t) == b["path"] and len(t["args"]) == len(perm):
+                    t["args"] = [t["args"][perm[i]] for i in range(len(perm))]
+        out.append((b["path"], perm))
+    return out
+
+
+def _references_fn(x, p):
+    """is function `p` used as a value (fn item operand / callee) anywhere in x?  A promoted constant of p that was copied
+    along with its inlined body is not such a use."""
+    if isinstance(x, dict):
+        f = x.get("fn") if x.get("k") == "const" else None
+        if isinstance(f, dict) and p in (f.get("path"), f.get("resolved")):
+            return True
+        if x.get("k") == "fn" and p in (x.get("path"), x.get("resolved")):
+            return True
+        return any(_references_fn(v, p) for v in x.values())
+    if isinstance(x, list):
+        return any(_references_fn(v, p) for v in x)
+    return False
+
+
 def normalise(j, known):
     """inline every non-closure function body that is not in `known` into its direct callers; returns the list of inlined paths"""
     if known is None:
         return []
     renamed = detect_renames(j, known)
     j.setdefault("header", {})["renamed"] = renamed
+    j["header"]["reordered"] = restore_param_order(j)
     bodies = {b["path"]: b for b in j["bodies"]}
     done = []
     for _ in range(MAX_ROUNDS):
@@ -222,9 +298,8 @@ def normalise(j, known):
             if p not in still and p in inlined_somewhere and not bodies[p].get("reachable"):
                 # no direct call left (it may still be referenced as a function value; then it stays)
                 referenced = False
-                sj = json.dumps(p)
                 for q, b in bodies.items():
-                    if q != p and sj in json.dumps(b.get("blocks")):
+                    if q != p and _references_fn(b.get("blocks"), p):
                         referenced = True
                         break
                 if not referenced:
